@@ -20,6 +20,9 @@ with a SIMULATION, not as a constructor added to `Op`:
 namespace MxModel.C02
 open MxModel.Exec
 
+-- whole mechanism states can be compared (used by the `decide` examples of the two-run statements)
+deriving instance DecidableEq for MxModel.Exec.St
+
 /-- the fourteen operations: the thirteen of `Op` and the assignment with the recalculation option on -/
 inductive OpR
   | base (op : Op)
@@ -120,6 +123,36 @@ theorem evaluatedTargets_sub (env : Env) : ∀ (ts : List Node) (s : St), ∀ t 
       · simp
       · exact List.mem_cons_of_mem _ (evaluatedTargets_sub env ts _ t h)
     · simp only [List.mem_singleton] at ht; subst ht; simp
+
+/-- when no recomputation fails, every target is evaluated -/
+theorem evaluatedTargets_ok (env : Env) : ∀ (ts : List Node) (s : St),
+    (St.recalcTargets env ts s).1 = .ok → evaluatedTargets env ts s = ts
+  | [], _, _ => rfl
+  | t :: ts, s, hok => by
+    simp only [St.recalcTargets, evaluatedTargets] at hok ⊢
+    cases hr : (evalTop env t s).1 with
+    | ok w =>
+      simp only [hr] at hok ⊢
+      rw [evaluatedTargets_ok env ts _ hok]
+    | formulaError e tb => simp [hr] at hok
+
+/-- when the recomputation of `t` fails, the evaluated targets are those before `t` (in the model's
+order) and `t` -/
+theorem evaluatedTargets_failed (env : Env) : ∀ (ts : List Node) (s : St) (t : Node) (e : Err) (tb : List Node),
+    (St.recalcTargets env ts s).1 = .failed t e tb →
+      ∃ pre post, ts = pre ++ t :: post ∧ evaluatedTargets env ts s = pre ++ [t]
+  | [], s, t, e, tb, h => by simp [St.recalcTargets] at h
+  | t0 :: ts, s, t, e, tb, h => by
+    simp only [St.recalcTargets, evaluatedTargets] at h ⊢
+    cases hr : (evalTop env t0 s).1 with
+    | formulaError e' tb' =>
+      simp only [hr, RecalcRes.failed.injEq] at h ⊢
+      obtain ⟨rfl, _, _⟩ := h
+      exact ⟨[], ts, rfl, rfl⟩
+    | ok w =>
+      simp only [hr] at h ⊢
+      obtain ⟨pre, post, h1, h2⟩ := evaluatedTargets_failed env ts _ t e tb h
+      exact ⟨t0 :: pre, post, by rw [h1]; rfl, by rw [h2]; rfl⟩
 
 /-- the loop over the targets IS the run of their evaluations (the targets exist: `step` refuses the
 evaluation through the handle of a missing cells, the loop does not ask) -/
